@@ -1,4 +1,6 @@
 use super::decoder::LF;
+
+const CR: u8 = b'\r';
 use super::resp::{AdvanceIndex, ArrayIndex, BulkStrIndex, DataIndex, IndexedResp, RespIndex};
 use btoi::btoi;
 use bytes::BytesMut;
@@ -78,8 +80,11 @@ pub fn parse_resp(buf: &[u8]) -> Result<(RespIndex, usize), ParseError> {
 
 fn parse_array(buf: &[u8]) -> Result<(ArrayIndex, usize), ParseError> {
     let (len, mut consumed) = parse_len(buf)?;
-    if len < 0 {
+    if len == -1 {
         return Ok((ArrayIndex::Nil, consumed));
+    }
+    if len < 0 {
+        return Err(ParseError::InvalidProtocol);
     }
 
     let array_size = len as usize;
@@ -98,13 +103,20 @@ fn parse_array(buf: &[u8]) -> Result<(ArrayIndex, usize), ParseError> {
 
 fn parse_bulk_str(buf: &[u8]) -> Result<(BulkStrIndex, usize), ParseError> {
     let (len, consumed) = parse_len(buf)?;
-    if len < 0 {
+    if len == -1 {
         return Ok((BulkStrIndex::Nil, consumed));
+    }
+    if len < 0 {
+        return Err(ParseError::InvalidProtocol);
     }
 
     let content_size = len as usize;
     if buf.len() < consumed + content_size + 2 {
         return Err(ParseError::NotEnoughData);
+    }
+    // The content should be followed by CRLF.
+    if buf.get(consumed + content_size..consumed + content_size + 2) != Some(&[CR, LF][..]) {
+        return Err(ParseError::InvalidProtocol);
     }
 
     let s = DataIndex(consumed, consumed + content_size);
@@ -124,6 +136,10 @@ fn parse_len(buf: &[u8]) -> Result<(i64, usize), ParseError> {
 fn parse_line(buf: &[u8]) -> Result<(DataIndex, usize), ParseError> {
     let lf_index = memchr(LF, buf).ok_or(ParseError::NotEnoughData)?;
     if lf_index == 0 {
+        return Err(ParseError::InvalidProtocol);
+    }
+    // A line should end with CRLF.
+    if buf.get(lf_index - 1) != Some(&CR) {
         return Err(ParseError::InvalidProtocol);
     }
 
